@@ -9,7 +9,7 @@
    positive theorems exclude exactly these. *)
 From Coq Require Import ZArith List Bool String.
 Import ListNotations.
-Require Import Grist.Lib.PyFloat Grist.Model.Values Grist.Proofs.Values_enc_proofs.
+Require Import Grist.Lib.PyFloat Grist.Model.Values Grist.Proofs.Values_enc_proofs Grist.Proofs.Values_depth_proofs.
 Open Scope Z_scope.
 
 Definition C24_full : Prop := forall orc fuel v,
@@ -42,6 +42,13 @@ Proof. exact action_repr_marshalable. Qed.
 Theorem C24_reply_marshalable : forall orc fuel b,
   bundle_ok b = true -> marshalableb (to_json_obj orc fuel b) = true.
 Proof. exact to_json_obj_marshalable. Qed.
+
+(* Nesting: with interpreter stack for `fuel` nested encode_object calls, the encoded form nests at most
+   2 * fuel + r + 3 container levels, r bounding the nesting of the fields passed through unencoded (node_raw).
+   With the default recursion limit of 1000 this stays below marshal's limit of 2000 levels. *)
+Theorem C24_encode_depth : forall orc r, 0 <= r -> forall fuel v,
+  vforall (node_raw r) v = true -> vdepth (encode_f orc fuel v) <= 2 * Z.of_nat fuel + r + 3.
+Proof. exact encode_depth. Qed.
 
 (* ---- round trip --------------------------------------------------------------------------------- *)
 
@@ -126,3 +133,13 @@ Proof.
   repeat split; try reflexivity.
   - intros u _. exists u. cbn. repeat split; try reflexivity. rewrite Z.sub_diag. cbn. discriminate.
 Qed.
+
+
+(* the error of C24_nonvacuous_marshalable in a list: raw fields of depth 0, encoded form nesting 5 levels
+   (['L', ['E', .., {'u': ['L', .., ['O', {'k': None}]]}]]), within the bound for the fuel it needs *)
+Example C24_nonvacuous_depth :
+  let orc := oracles_of utc_tables in
+  let v := PList LPlain [PErr (PStr false (Str "ValueError")) PNone PNone
+                              (Some (PTuple [PFloat false (FNum 3 (-1)); PDate 1; PDict [(PStr false (Str "k"), PNone)]]))] in
+  vforall (node_raw 0) v = true /\ vdepth (encode_f orc 3 v) = 5.
+Proof. cbv zeta. split; vm_compute; reflexivity. Qed.
